@@ -22,7 +22,7 @@ impl Check for C10 {
         300
     }
     fn cases(&self, tier: Tier) -> u64 {
-        tier.pick(100_000, 5_000_000)
+        tier.pick(2_000_000, 50_000_000)
     }
     fn run_case(&self, src: &mut Src, obs: &mut Obs) -> Result<(), Fail> {
         let two_d = src.chance(1, 3);
